@@ -331,6 +331,57 @@ func AliasScenarios(e *Env) int {
 			e.mutateEvent("Distinct(array fields)", "read: several documents", before)
 			return []interface{}{v1, v2, v3}
 		}},
+		{"Find(paths below _id)", func() []interface{} {
+			return []interface{}{bson.D{}, bson.D{{Key: "_id.k", Value: int32(0)}}, bson.D{{Key: "n", Value: int32(1)}, {Key: "_id.k", Value: bson.D{{Key: "$slice", Value: int32(1)}}}}}
+		}, func(e *Env, a []interface{}) []interface{} {
+			before := e.snapshot()
+			var ds, ds2 []bson.D
+			if cur, err := c.Find(ctx, a[0], options.Find().SetProjection(a[1])); err == nil {
+				cur.All(ctx, &ds)
+			}
+			if cur, err := c.Find(ctx, a[0], options.Find().SetProjection(a[2])); err == nil {
+				cur.All(ctx, &ds2)
+			}
+			e.mutateEvent("Find(paths below _id)", "read", before)
+			return []interface{}{ds, ds2}
+		}},
+		{"UpdateOne(path below _id)", func() []interface{} {
+			return []interface{}{bson.D{{Key: "_id", Value: docID(3)}}, bson.D{{Key: "$set", Value: bson.D{{Key: "_id.k.0", Value: int32(99)}}}}, bson.D{{Key: "$set", Value: bson.D{{Key: "_id.z", Value: bson.A{int32(1)}}}}}}
+		}, func(e *Env, a []interface{}) []interface{} {
+			// both change the _id and are refused: nothing may change
+			before := e.snapshot()
+			_, err1 := c.UpdateOne(ctx, a[0], a[1])
+			_, err2 := c.UpdateOne(ctx, a[0], a[2])
+			if err1 != nil && err2 != nil {
+				e.mutateEvent("UpdateOne(path below _id)", "refused update", before)
+			}
+			return nil
+		}},
+		{"FindOne(bytes of one result)", func() []interface{} { return []interface{}{bson.D{{Key: "_id", Value: docID(3)}}} }, func(e *Env, a []interface{}) []interface{} {
+			// the bytes handed out by one accessor of a result are overwritten; the other accessors of the same result
+			// and a fresh read still deliver the document
+			var want, got bson.D
+			c.FindOne(ctx, a[0]).Decode(&want)
+			sr := c.FindOne(ctx, a[0])
+			raw, err := sr.DecodeBytes()
+			if err != nil {
+				return nil
+			}
+			for i := 4; i < len(raw)-1; i++ {
+				raw[i] = 0x10
+			}
+			raw2, err2 := sr.DecodeBytes()
+			err3 := sr.Decode(&got)
+			if err2 != nil || err3 != nil || !reflect.DeepEqual(got, want) || bson.Raw(raw2).Validate() != nil {
+				e.finding("alias", "overwriting the bytes returned by SingleResult.DecodeBytes changed what the same result returns afterwards", V{"op": "FindOne"})
+			} else {
+				var again bson.D
+				if bson.Unmarshal(raw2, &again) != nil || !reflect.DeepEqual(again, want) {
+					e.finding("alias", "overwriting the bytes returned by SingleResult.DecodeBytes changed what the same result returns afterwards", V{"op": "FindOne"})
+				}
+			}
+			return []interface{}{got, []byte(raw2)}
+		}},
 		{"DeleteOne", func() []interface{} { return []interface{}{bson.D{{Key: "_id", Value: docID(30)}}} }, func(e *Env, a []interface{}) []interface{} {
 			c.DeleteOne(ctx, a[0])
 			return nil
